@@ -6,6 +6,8 @@ import LzModel.Parser
 import LzModel.DecBuf
 import LzModel.Bitset
 import LzModel.Json
+import LzModel.BitsetW
+import LzModel.BytesW
 namespace LZ.Driver
 open LZ
 
@@ -104,6 +106,7 @@ inductive Machine where
   | decbuf (b : DecBuf)
   | decoder (d : Decoder)
   | bitset (b : BitsetM)
+  | bitsetW (b : BitsetW)
 
 structure St where
   classes : List Nat := []
@@ -295,7 +298,8 @@ def step (st : St) (line : String) : St × String :=
     | some b => ({ st with m := .decoder { buf := b, w := { resps := parseResps rs, got := [] } } },
                  s!"S {id} ok {showDec b}")
     | none => ({ st with m := .dead }, s!"S {id} cfg")
-  | ["S", id, "BS"] => ({ st with m := .bitset BitsetM.empty }, s!"S {id} ok")
+  | ["S", id, "BS"] => ({ st with m := .bitsetW BitsetW.empty }, s!"S {id} ok")   -- word-level model of bitset.go
+  | ["S", id, "BSM"] => ({ st with m := .bitset BitsetM.empty }, s!"S {id} ok")  -- set-level model
   | ["S", id, "X"] => ({ st with m := .none }, s!"S {id} ok")
   | ["E"] => ({ st with m := .none }, "E")
   | _ =>
@@ -305,8 +309,10 @@ def step (st : St) (line : String) : St × String :=
     | .decbuf b => let (m, out) := stepDecBuf (goGrow st.classes) b ws; ({ st with m := m }, out)
     | .decoder d => let (m, out) := stepDecoder (goGrow st.classes) d ws; ({ st with m := m }, out)
     | .bitset b => let (m, out) := stepBitset b ws; ({ st with m := m }, out)
+    | .bitsetW b => let (b', out) := BitsetW.stepLine b ws; ({ st with m := .bitsetW b' }, out)
     | .none =>
-      match stepStateless ws with
+      -- byte comparison units run on the word-at-a-time model (LzModel/BytesW.lean)
+      match (match BytesW.stepLine ws with | some o => some o | none => stepStateless ws) with
       | some out => (st, out)
       | none => (st, "bad-op")
 
